@@ -34,9 +34,43 @@ def _stage_ops(p: Path):
     return out
 
 
+def _forward_complete(chk):
+    """what the model's projection / prediction algorithm receives in the public transform / predict has passed EVERY
+    forward stage of its field, each once: preprocessor (single-set), preprocessor -> pca -> whitener (cross-set).  A
+    skipped stage leaves the data in another basis than the stored components (transform(training data) != scores)."""
+    pm = chk.pm
+    specs = [
+        ("xeofs.single.base_model_single_set.BaseModelSingleSet", ("transform",), ("_transform_algorithm",), ["preprocessor"]),
+        ("xeofs.cross.base_model_cross_set.BaseModelCrossSet", ("transform", "predict"), ("_transform_algorithm", "_predict_algorithm"), ["preprocessor", "pca", "whitener"]),
+    ]
+    for cname, entries, algs, want in specs:
+        cls = pm.cls(cname)
+        for ename in entries:
+            fn = cls.methods.get(ename)
+            chk.require(fn is not None, f"{cname}.{ename} vanished")
+            ff = FuncFacts.of(fn)
+            calls = [c for c in ff.calls() if is_self_attr(c.func) and c.func.attr in algs]
+            chk.require(len(calls) >= 1, f"{cname}.{ename}: call of the projection / prediction algorithm vanished")
+            for c in calls:
+                for a in list(c.args) + [k.value for k in c.keywords if k.arg in ("X", "Y", "data")]:
+                    ps = [p for p in ff.paths(a, spine_only=True, follow=True) if p.atom.kind == "param" and p.atom.name in ("X", "Y", "data")]
+                    if not ps:
+                        continue
+                    chains = [[st[0] for st in _stage_ops(p) if st[2] in FWD] for p in ps]
+                    optional = isinstance(fn.defaults().get(ps[0].atom.name), ast.Constant) and fn.defaults()[ps[0].atom.name].value is None
+                    chk.require(any(ch == want for ch in chains) or any(ch for ch in chains), f"{cname}.{ename}: no forward stage applied to {ps[0].atom.name}") if False else None
+                    for p, got in zip(ps, chains):
+                        if not got and optional and any(ch for ch in chains):
+                            continue  # the argument was not given (None is handed through untouched)
+                        chk.check(got == want, "SPACE.forward.complete", fn, c, construct=f"{cls.name}.{ename}: {p.atom.name} passes {' -> '.join(want)} before {c.func.attr}",
+                                  why=f"the data handed to {c.func.attr} has passed the forward stages {got}, not {want}: it is projected in another basis / scaling than "
+                                      "the one the components were fitted in")
+
+
 def check(chk):
     pm = chk.pm
     _space(chk)
+    _forward_complete(chk)
     _agree(chk)
     _acc(chk)
     chk.floor("SPACE.project", 6)
